@@ -568,7 +568,8 @@ class HttpParser(abc.ABC, Generic[_MsgT]):
                     payload_state = PayloadState.PAYLOAD_COMPLETE
                     data = b""
                     if isinstance(
-                        underlying_exc, (InvalidHeader, TransferEncodingError)
+                        underlying_exc,
+                        (InvalidHeader, TransferEncodingError, LineTooLong),
                     ):
                         raise
 
